@@ -139,6 +139,9 @@ Definition view (s : state) (l : loc) : cell :=
   | LIdx e spec key => CObj (g_idx s e spec key)
   end.
 
+(* the normal form of a cell stored at l (view s l = norm l (s l)) *)
+Definition norm (l : loc) (c : cell) : cell := view (fun _ => c) l.
+
 Definition members (s : state) (f : oid -> loc) : list oid := filter (fun x => g_bool s (f x)) (seq 0 (g_next s)).
 
 (* ---------------------------------------------------------------- undo actions and closures
@@ -262,6 +265,11 @@ Fixpoint amend_at (l : list closure) (k : nat) (extra : closure) : list closure 
   end.
 Definition amend (id : nat) (extra : closure) : M unit :=
   fun c => ROk tt (set_log c (amend_at (c_log c) (length (c_log c) - 1 - id) extra)).
+(* writes for which the code registers no undo: the run is tainted when one of them visibly changes the state *)
+Definition changes (s : state) (w : list (loc * cell)) : bool :=
+  existsb (fun lc => negb (cell_eqb (view s (fst lc)) (norm (fst lc) (snd lc)))) w.
+Definition unlogged_writes (t : taint) (w : list (loc * cell)) : M unit :=
+  fun c => ROk tt (mkctx (apply_writes w (c_st c)) (c_log c) (if changes (c_st c) w then t :: c_taint c else c_taint c) (c_nidx c) (c_nradd c)).
 Definition log_len : M nat := fun c => ROk (length (c_log c)) c.
 Definition get_log : M (list closure) := fun c => ROk (c_log c) c.
 
